@@ -224,7 +224,16 @@ def value_for(p, extra, vals, top=True):
     return tuple(out)
 
 
-SOURCE_KINDS = ["list", "tuple", "str", "range", "generator", "dictview", "iterator", "custom-iterable"]
+SOURCE_KINDS = ["list", "tuple", "str", "range", "generator", "dictview", "iterator", "custom-iterable",
+                # the *nested* elements are one-shot / non-indexable iterables (a nested pattern must iterate its own element)
+                "nested-iterators", "nested-generators", "nested-custom-iterables"]
+
+
+def _nested(val, wrap, top=True):
+    if isinstance(val, int):
+        return repr(val)
+    inner = "[" + ", ".join(_nested(x, wrap, False) for x in val) + "]"
+    return inner if top else wrap % inner
 
 
 def wrap_source(val, kind):
@@ -250,6 +259,11 @@ def wrap_source(val, kind):
         return "iter(%s)" % lit
     if kind == "custom-iterable":
         return "Seq(%s)" % lit
+    if kind.startswith("nested-"):
+        if flat:
+            return None
+        return _nested(val, {"nested-iterators": "iter(%s)", "nested-generators": "(e_ for e_ in %s)",
+                             "nested-custom-iterables": "Seq(%s)"}[kind])
 
 
 SEQ = '''
@@ -344,7 +358,50 @@ def chained_cells():
         yield ("chained-in-function", pat, sk, fk), "def f():\n" + "".join("    " + l + "\n" for l in body.splitlines()) + "f()\n"
 
 
+# ---------------------------------------------------------------- parallel assignment: all values first, then the stores
+
+PARALLEL = {
+    "swap-module": "a, b = 1, 2\na, b = b, a\nprint(a, b)\n",
+    "swap-captured-nonlocal": ("def f():\n    lo, hi = 1, 2\n    def g():\n        nonlocal lo, hi\n        lo, hi = hi, lo\n        return lo, hi\n"
+                               "    r = g()\n    return r, lo, hi\nprint(f())\n"),
+    "swap-captured-read-only-inner": ("def f():\n    lo, hi = 1, 2\n    def peek():\n        return lo, hi\n    lo, hi = hi, lo\n    return peek(), lo, hi\nprint(f())\n"),
+    "fib-nonlocal": ("def mk():\n    cur, nxt = 0, 1\n    def step():\n        nonlocal cur, nxt\n        cur, nxt = nxt, cur + nxt\n        return cur\n    return step\n"
+                     "s = mk()\nprint([s() for _ in range(6)])\n"),
+    "fib-global": "cur, nxt = 0, 1\ndef step():\n    global cur, nxt\n    cur, nxt = nxt, cur + nxt\n    return cur\nprint([step() for _ in range(6)], cur, nxt)\n",
+    "fib-class-body": "class K:\n    cur, nxt = 0, 1\n    cur, nxt = nxt, cur + nxt\n    cur, nxt = nxt, cur + nxt\n    cur, nxt = nxt, cur + nxt\nprint(K.cur, K.nxt)\n",
+    "indirect-read-global": "level = 1\ndef describe():\n    return 'L%d' % level\nlevel, label = 10, describe()\nprint(level, label)\n",
+    "indirect-read-closure": ("def f():\n    level = 1\n    def describe():\n        return 'L%d' % level\n    level, label = 10, describe()\n    label2, level = describe(), 20\n"
+                              "    return level, label, label2\nprint(f())\n"),
+    "indirect-read-lambda-and-comprehension": "n = 1\npeek = lambda: n\nn, seen, lst = 5, peek(), [n for _ in range(2)]\nprint(n, seen, lst)\n",
+    "indirect-read-attribute": "class O:\n    pass\no = O()\no.a, o.b = 1, 2\no.a, o.b = o.b, o.a\no.a, o.b = o.b + 10, (lambda: o.a)()\nprint(o.a, o.b)\n",
+    "indirect-read-subscript": "d = {'x': 1, 'y': 2}\nd['x'], d['y'] = d['y'], d['x']\nl = [0, 1, 2]\nl[0], l[1], l[2] = l[2], l[0], l[1]\nprint(d, l)\n",
+    "three-way-rotation-local": "def f():\n    a, b, c = 1, 2, 3\n    a, b, c = c, a, b\n    [a, b], c = [b, c], a\n    return a, b, c\nprint(f())\n",
+    "store-order-left-to-right": "l = [0, 1, 2]\ni = 0\ni, l[i] = 2, 'x'\nprint(i, l)\nj, (l[j], j) = 1, ('y', 0)\nprint(j, l)\n",
+    "same-name-twice": "x, (y, x) = 1, (2, 3)\nprint(x, y)\n(x, y), x = (4, 5), 6\nprint(x, y)\n",
+    "nested-pattern-stores-into-its-own-source": "row = [1, 2, 3]\ni, (row[2], row[1], row[0]) = 7, row\nprint(i, row)\nrow2 = [1, 2, 3]\n(row2[1], row2[0], row2[2]), k = row2, 0\nprint(row2, k)\n",
+    "nested-element-is-a-dict": "tag, (first, second) = 'cfg', {1: 'one', 0: 'zero'}\nprint(tag, first, second)\n",
+    "nested-element-is-a-generator": "a, (b, c) = 1, (q * 2 for q in [2, 3])\nprint(a, b, c)\n(d, *e), f = (q for q in [1, 2, 3]), 9\nprint(d, e, f)\n",
+    "nested-element-is-an-iterator": "a, (b, *c) = 1, iter([2, 3, 4])\nprint(a, b, c)\nit = iter([5, 6])\n(p, q), r = it, 0\nprint(p, q, r, list(it))\n",
+    "nested-element-is-a-set-or-map-object": "a, (b,) = 1, {7}\nprint(a, b)\nm, (n, o) = 0, map(str, [1, 2])\nprint(m, n, o)\nu, (v, w) = 0, {'k1': 1, 'k2': 2}.items()\nprint(u, v, w)\n",
+    "nested-element-is-a-string": "a, (b, c), [d, *e] = 1, 'xy', 'pqr'\nprint(a, b, c, d, e)\n",
+    "nested-element-custom-iterable": "a, (b, c) = 1, Seq([2, 3])\nprint(a, b, c)\nfor g, (h, i) in [(1, Seq([2, 3])), (4, (q for q in [5, 6]))]:\n    print(g, h, i)\n",
+    "for-target-nested-non-indexable": "for k, (v, w) in [(1, {2: 'a', 3: 'b'}), (4, iter([5, 6]))]:\n    print(k, v, w)\n",
+    "three-levels-non-indexable": "a, (b, (c, d)) = 1, iter([2, iter([3, 4])])\nprint(a, b, c, d)\n",
+    "wrong-length-nested": "try_ = 0\na, (b, c) = 1, [2, 3]\nprint(a, b, c)\n",
+}
+
+
+def parallel_cells():
+    ind = lambda b, n=1: "".join("    " * n + x + "\n" for x in b.splitlines())
+    for name, src in PARALLEL.items():
+        yield ("parallel", name, "module"), src
+        yield ("parallel", name, "function"), "def main_():\n" + ind(src) + "main_()\n"
+        if "global " not in src:
+            yield ("parallel", name, "method"), "class M_:\n    def run(self):\n" + ind(src, 2) + "M_().run()\n"
+
+
 def all_cells():
+    yield from parallel_cells()
     yield from chained_cells()
     yield from aug_cells()
     yield from destructuring_cells()
